@@ -32,8 +32,10 @@ export { generateHashFromString, generateHashFromNumbers } from "./hash.js";
 const JSON_PROTO = Object.getPrototypeOf({});
 
 function deepmergeConstructor(options: any) {
-  function isNotPrototypeKey(value: any) {
-    return value !== "constructor" && value !== "prototype" && value !== "__proto__";
+  // results are fresh objects and every key is written as an own data property, so keys named
+  // "constructor", "prototype" or "__proto__" are data like any other and cannot reach a prototype
+  function setOwn(result: any, key: any, value: any) {
+    Object.defineProperty(result, key, { value, enumerable: true, writable: true, configurable: true });
   }
 
   function cloneArray(value: any) {
@@ -56,8 +58,8 @@ function deepmergeConstructor(options: any) {
     const targetKeys = getKeys(target);
     let i, il, key;
     for (i = 0, il = targetKeys.length; i < il; ++i) {
-      //@ts-ignore
-      isNotPrototypeKey((key = targetKeys[i])) && (result[key] = clone(target[key]));
+      key = targetKeys[i];
+      setOwn(result, key, clone(target[key]));
     }
     return result;
   }
@@ -145,34 +147,27 @@ function deepmergeConstructor(options: any) {
     const sourceKeys = getKeys(source);
     let i, il, key;
     for (i = 0, il = targetKeys.length; i < il; ++i) {
-      isNotPrototypeKey((key = targetKeys[i])) &&
-        sourceKeys.indexOf(key) === -1 &&
-        // @ts-ignore
-        (result[key] = clone(target[key]));
+      key = targetKeys[i];
+      if (sourceKeys.indexOf(key) === -1) {
+        setOwn(result, key, clone(target[key]));
+      }
     }
 
     for (i = 0, il = sourceKeys.length; i < il; ++i) {
-      if (!isNotPrototypeKey((key = sourceKeys[i]))) {
-        continue;
-      }
-
-      if (key in target) {
-        if (targetKeys.indexOf(key) !== -1) {
-          if (
-            cloneProtoObject &&
-            isMergeableObject(source[key]) &&
-            Object.getPrototypeOf(source[key]) !== JSON_PROTO
-          ) {
-            // @ts-ignore
-            result[key] = cloneProtoObject(source[key]);
-          } else {
-            // @ts-ignore
-            result[key] = _deepmerge(target[key], source[key]);
-          }
+      key = sourceKeys[i];
+      // only a key the target has as its own is merged; one it merely inherits is new
+      if (targetKeys.indexOf(key) !== -1) {
+        if (
+          cloneProtoObject &&
+          isMergeableObject(source[key]) &&
+          Object.getPrototypeOf(source[key]) !== JSON_PROTO
+        ) {
+          setOwn(result, key, cloneProtoObject(source[key]));
+        } else {
+          setOwn(result, key, _deepmerge(target[key], source[key]));
         }
       } else {
-        // @ts-ignore
-        result[key] = clone(source[key]);
+        setOwn(result, key, clone(source[key]));
       }
     }
     return result;
